@@ -255,7 +255,8 @@ Definition set_col3 (A : mat) (j : nat) (c : list Q) : mat :=
 
 (** [i0] = id of the first sorted file; [col] as returned by [Stack.Model.get_affine]:
     [Some (a, b)]: the slice column is [affine(b)[:3,3] - affine(a)[:3,3]] (files_per_vol > 1: a, b = first
-    two sorted files; or an earlier in-place edit of that file's affine), [None]: the wrapper's column *)
+    two sorted files), [None]: the wrapper's own column.  (Since fix 9c7aa81 get_affine works on a COPY of the
+    first file's affine; the file's own image is not edited.) *)
 Definition stack_affine (gs : list gfile) (i0 : nat) (col : option (nat * nat)) : res mat :=
   match glookup gs i0 with
   | None => Err ECrash
